@@ -10,7 +10,7 @@ use blsful::vsss_rs::Share;
 use blsful::*;
 use serde_json::{json, Value};
 
-pub const RULE: &str = "enumeration of entry point x argument position (identity substituted alone and together with an otherwise honest remainder; where an all-identity combination satisfies the pairing equation trivially that combination is constructed explicitly) x scheme x group x message: Signature::verify, AggregateSignature::verify (n in {1,2,3,8[,64]}: identity key at EVERY position with the aggregate recomputed over the remaining honest pairs so that only the guard can reject; aggregate that is itself the identity from signers k and -k), MultiSignature::verify (accumulated key pk+(-pk) with the matching identity multi-signature), ProofOfPossession::verify, ProofOfKnowledge::verify and ProofOfKnowledgeTimestamp::verify (u, v, pk, y=0 incl. the algebraically satisfying forgeries), ProofCommitment::finalize (u, sig, x=0, y=0), SignCryptCiphertext::is_valid/decrypt, SignDecryptionShare::verify, TimeCryptCiphertext::decrypt (incl. a ciphertext crafted to open under the identity signature), ElGamalProof::verify/verify_and_decrypt (c1, c2, pk, each scalar = 0, sk = 0); zero scalar through every byte importer and every signing entry point; identity recipient for the Result-returning encryptions. Oracle: must not succeed; positive twin (honest value restored -> same call succeeds) in the same run, a case whose twin fails is vacuous and not counted. History clusters (2 quick / 8 thorough per group): the honest questions and the same questions with the identity substituted (signatures of every scheme, two-signer aggregates with an identity-key pair added, multi-signatures, proof of possession) in every ordered pair (a,b) as a,b,b,a. Distinct by (suite, entry, position, scheme, inputs).";
+pub const RULE: &str = "enumeration of entry point x argument position (identity substituted alone and together with an otherwise honest remainder; where an all-identity combination satisfies the pairing equation trivially that combination is constructed explicitly) x scheme x group x message: Signature::verify, AggregateSignature::verify (n in {1,2,3,8[,64]}: identity key at EVERY position with the aggregate recomputed over the remaining honest pairs so that only the guard can reject; aggregate that is itself the identity from signers k and -k), MultiSignature::verify (accumulated key pk+(-pk) with the matching identity multi-signature), ProofOfPossession::verify, ProofOfKnowledge::verify and ProofOfKnowledgeTimestamp::verify (u, v, pk, y=0 incl. the algebraically satisfying forgeries), ProofCommitment::finalize (u, sig, x=0, y=0), SignCryptCiphertext::is_valid/decrypt, SignDecryptionShare::verify, TimeCryptCiphertext::decrypt (incl. a ciphertext crafted to open under the identity signature), ElGamalProof::verify/verify_and_decrypt (c1, c2, pk, each scalar = 0, sk = 0); zero scalar through every byte importer and every signing entry point; identity recipient for the Result-returning encryptions. Oracle: must not succeed; positive twin (honest value restored -> same call succeeds) in the same run, a case whose twin fails is vacuous and not counted. History clusters (2 quick / 32 thorough per group): the honest questions and the same questions with the identity substituted (signatures of every scheme, two-signer aggregates with an identity-key pair added, multi-signatures, proof of possession) in every ordered pair (a,b) as a,b,b,a. Distinct by (suite, entry, position, scheme, inputs).";
 
 pub fn run(ctx: &mut Ctx) {
     for_both!(run_suite, ctx);
@@ -49,7 +49,7 @@ fn run_suite<C: Suite>(ctx: &mut Ctx) {
     let base: u64 = if C::NAME == "G1Impl" { 0 } else { 1 << 32 };
     let n = C::NAME;
     let mut g = base;
-    let reps = ctx.tier.pick(2, 12);
+    let reps = ctx.tier.pick(2, 72);
 
     let req = [
         "Signature::verify/pk", "Signature::verify/sig", "Signature::verify/pk+sig",
@@ -72,7 +72,7 @@ fn run_suite<C: Suite>(ctx: &mut Ctx) {
     }
     // history clusters: identity-carrying questions next to their honest twins
     ctx.require(&format!("{n}/history"));
-    for i in 0..ctx.tier.pick(2, 8) {
+    for i in 0..ctx.tier.pick(2, 32) {
         g += 1;
         if ctx.mine(g) {
             history_cluster::<C>(ctx, g, i);
